@@ -2,7 +2,6 @@ package main
 
 import (
 	"encoding/json"
-	"fmt"
 	"os"
 	"sort"
 
@@ -43,7 +42,3 @@ func cmdVocab() {
 	json.NewEncoder(os.Stdout).Encode(map[string]any{"functions": fns, "aggregators": aggs, "operators": bins})
 }
 
-func cmdGen(args []string) {
-	fmt.Fprintln(os.Stderr, "gen: not built yet")
-	os.Exit(2)
-}
